@@ -95,6 +95,23 @@ impl Expr {
     pub fn new_negate(expr: Expr) -> Expr {
         Expr::new_unary(UnaryOpType::Negative, expr)
     }
+
+    /// True if the printed form starts with a sign: `+x`, `-x`, and
+    /// powers of those such as `-x^2`.
+    pub(crate) fn is_signed(&self) -> bool {
+        match self {
+            Expr::UnaryOp(UnaryOpExpr {
+                op: UnaryOpType::Positive | UnaryOpType::Negative,
+                ..
+            }) => true,
+            Expr::BinOp(BinOpExpr {
+                op: BinOpType::Pow,
+                left,
+                ..
+            }) => left.is_signed(),
+            _ => false,
+        }
+    }
 }
 
 #[derive(PartialOrd, Ord, PartialEq, Eq, Clone, Copy)]
@@ -122,6 +139,22 @@ impl Precedence {
             BinOpType::Or => Precedence::Div,
             BinOpType::Xor => Precedence::Div,
             BinOpType::Equals => Precedence::Equals,
+        }
+    }
+
+    /// The loosest precedence the left and right operands of a binary
+    /// operator may have without needing parentheses, so that the printed
+    /// text is parsed back into the same tree. Only `^` is right
+    /// associative; for every other operator a right operand of the same
+    /// level needs its parentheses (`a - (b - c)`, `a / (b / c)`,
+    /// `c = (a = b)`), while left operands are always parenthesised to make
+    /// the grouping visible.
+    pub fn operands(binop_type: BinOpType) -> (Precedence, Precedence) {
+        let own = Precedence::from(binop_type);
+        let tighter = Precedence::next(binop_type);
+        match binop_type {
+            BinOpType::Pow => (tighter, own),
+            _ => (tighter, tighter),
         }
     }
 
@@ -155,13 +188,13 @@ impl fmt::Display for Expr {
                 Expr::Date { .. } => write!(fmt, "NYI: date expr Display"),
                 Expr::BinOp(ref binop) => {
                     let op_prec = Precedence::from(binop.op);
-                    let succ = Precedence::next(binop.op);
                     if prec < op_prec {
                         write!(fmt, "(")?;
                     }
-                    recurse(&binop.left, fmt, succ)?;
+                    let (left_prec, right_prec) = Precedence::operands(binop.op);
+                    recurse(&binop.left, fmt, left_prec)?;
                     write!(fmt, "{}", binop.op.symbol())?;
-                    recurse(&binop.right, fmt, op_prec)?;
+                    recurse(&binop.right, fmt, right_prec)?;
                     if prec < op_prec {
                         write!(fmt, ")")?;
                     }
@@ -197,7 +230,14 @@ impl fmt::Display for Expr {
                     }
                     for expr in exprs.iter().skip(1) {
                         write!(fmt, " ")?;
-                        recurse(expr, fmt, Precedence::Pow)?;
+                        // `a -b` would be read back as a subtraction.
+                        if expr.is_signed() {
+                            write!(fmt, "(")?;
+                            recurse(expr, fmt, Precedence::Equals)?;
+                            write!(fmt, ")")?;
+                        } else {
+                            recurse(expr, fmt, Precedence::Pow)?;
+                        }
                     }
                     if prec < Precedence::Mul {
                         write!(fmt, ")")?;
@@ -223,7 +263,8 @@ impl fmt::Display for Expr {
                         write!(fmt, "(")?;
                     }
                     write!(fmt, "{} of ", property)?;
-                    recurse(expr, fmt, Precedence::Div)?;
+                    // The parser reads a juxtaposition after `of`, nothing looser.
+                    recurse(expr, fmt, Precedence::Mul)?;
                     if prec < Precedence::Add {
                         write!(fmt, ")")?;
                     }
